@@ -14,7 +14,7 @@ Python value specs: {"t":"int","v":"-12"} {"t":"bool","v":1} {"t":"dec","s":0,"c
 
 Observations (compared with the compiled Lean model, see lean/RV/C09/Drive.lean): datatype chosen, *validity* of the
 lexical forms produced (spelling is a diagnostic: VERIF_C09_SPELL=1 compares it too), ill_typed, value (structurally),
-value after re-reading, normalize() once and twice, eq / term equality.  Floats, base64Binary, bytes values and
+value after re-reading, normalize() once and twice, eq / term equality.  Floats, bytes values and
 inputs outside the declared fragment of the CPython constructors answer `unmodelled` on both sides.
 
 Property oracle (`viol`, independent of Lean): XSD 1.1 lexical spaces as regular expressions written from the
@@ -135,8 +135,8 @@ INT_BOUNDS = {  # XSD 1.1 Part 2 §3.4 (written from the spec, not from rdflib)
 STRINGY = ["string", "normalizedString", "token", "language", "anyURI"]
 DATEY = ["date", "time", "dateTime"]
 DURS = ["duration", "dayTimeDuration", "yearMonthDuration"]
-MODELLED = list(INT_BOUNDS) + ["decimal", "boolean"] + STRINGY + DATEY + DURS + ["hexBinary"]
-UNMODELLED_DT = ["float", "double", "base64Binary"]
+MODELLED = list(INT_BOUNDS) + ["decimal", "boolean"] + STRINGY + DATEY + DURS + ["hexBinary", "base64Binary"]
+UNMODELLED_DT = ["float", "double"]
 ALL_DT = MODELLED + UNMODELLED_DT
 NUMERIC = set(INT_BOUNDS) | {"decimal", "float", "double"}
 
@@ -159,8 +159,10 @@ RE = {
     "dayTimeDuration": re.compile(rf"-?P{_DUDAYTIME}"),
     "yearMonthDuration": re.compile(rf"-?P{_DUYM}"),
     "hexBinary": re.compile(r"(?:[0-9a-fA-F]{2})*"),
-    "base64Binary": re.compile(r"(?:(?:[A-Za-z0-9+/] ?){4})*(?:(?:[A-Za-z0-9+/] ?){2}[AEIMQUYcgkosw048] ?=|"
-                               r"[A-Za-z0-9+/] ?[AQgw] ?= ?=)?"),
+    # XSD 1.1 §3.3.16.2: (B64quad* B64final)? with B64 ::= B64char #x20? and B64finalquad ::= B64 B64 B64 B64char
+    # (a single space may follow every character except the last one)
+    "base64Binary": re.compile(r"(?:(?:(?:[A-Za-z0-9+/] ?){4})*(?:(?:[A-Za-z0-9+/] ?){3}[A-Za-z0-9+/]|"
+                               r"(?:[A-Za-z0-9+/] ?){2}[AEIMQUYcgkosw048] ?=|[A-Za-z0-9+/] ?[AQgw] ?= ?=))?"),
     "double": re.compile(r"(?:\+|-)?(?:[0-9]+(?:\.[0-9]*)?|\.[0-9]+)(?:[Ee](?:\+|-)?[0-9]+)?|(?:\+|-)?INF|NaN"),
     "language": re.compile(r"[a-zA-Z]{1,8}(?:-[a-zA-Z0-9]{1,8})*"),
     "durfields": re.compile(r"(-?)P(?:([0-9]+)Y)?(?:([0-9]+)M)?(?:([0-9]+)D)?(?:T(?:([0-9]+)H)?(?:([0-9]+)M)?(?:([0-9]+)(?:\.([0-9]+))?S)?)?"),
@@ -1373,6 +1375,22 @@ def mutate(rng, dt, s):
             return str(rng.choice(c))
     if r < 0.4:
         return rng.choice([" ", "\t", "\n", ""]) + s + rng.choice([" ", "\n", "", ""])
+    if dt == "base64Binary" and r < 0.7:
+        # padding / alphabet / white-space shapes of binascii.a2b_base64 (non-strict)
+        q = rng.random()
+        if q < 0.25:
+            return rng.choice(["=", "==", "Y", "YQ", "YQ=", "YQ===", "YWI", "YWI==", "YQ=a=", "YQ=YQ==", "=YQ==", "Y=Q==", "YW=Jj", "YWJj=",
+                               "YWJj====", "YQ = =", "YQ= =", "YQ ==", " YQ==", "YQ== ", "YQ==\n", "Y Q = =", "YWJj ", "YW  Jj", "YWJjZA", "YR==",
+                               "YWJ=", "YWI=", "YWJj\nZGVm", "YWJj-_", "YWJj.ZA==", "YQ==YWJj", "YWJjYQ==YWJj", "Y===", "Y=Q=", "YQ=\t="])
+        i = rng.randrange(len(s) + 1)
+        if q < 0.5:
+            return s[:i] + rng.choice(["=", "=", " ", "  ", "\n", "-", "_", "A", "Q", "/", "+"]) + s[i:]
+        if q < 0.7:
+            return s.rstrip("=") + "=" * rng.choice([0, 0, 1, 2, 3])
+        if q < 0.85 and s:
+            i = min(i, len(s) - 1)
+            return s[:i] + rng.choice(B64 + "=") + s[i + 1:]
+        return " ".join(s) if q < 0.93 else s.replace("=", " =")
     if not s:
         return rng.choice(_MUT)
     i = rng.randrange(len(s))
@@ -1489,6 +1507,9 @@ def _lit_for_eq(rng, fam):
     if fam == "hexBinary":
         s = rng.choice(["", "0fb7", "0FB7", "0Fb7", "00", "3132", "0f", "0"])
         return {"dt": "hexBinary", "cps": [ord(c) for c in s], "norm": rng.random() < 0.5}
+    if fam == "base64Binary":
+        s = rng.choice(["", "YQ==", "Y Q==", "YQ= =", "YR==", "YWI=", "YWJj", "YW Jj", "YWJjZA==", "YQ", "YQ=YQ==", "MTI="])
+        return {"dt": "base64Binary", "cps": [ord(c) for c in s], "norm": rng.random() < 0.5}
     if fam == "float":
         return rng.choice([{"v": {"t": "float", "hex": rng.choice(["nan", "inf", "-inf", (1.0).hex(), (0.0).hex(), (-0.0).hex()])}},
                            {"dt": rng.choice(["double", "float"]), "cps": [ord(c) for c in rng.choice(["NaN", "INF", "1", "1.0", "1e0", "0", "-0"])], "norm": rng.random() < 0.5}])
@@ -1525,7 +1546,8 @@ def gen_relit(rng):
             old["lang"] = rng.choice(["en", "EN", "fr-BE"])
         return {"kind": "relit", "old": old, "dt": None, **({"lang": rng.choice(["en", "de"])} if rng.random() < 0.5 else {})}
     # a typed literal re-typed within / across families
-    fams = [list(INT_BOUNDS) + ["decimal"], ["string", "normalizedString", "token", "language", "anyURI"], DURS, DATEY, ["hexBinary", "string"]]
+    fams = [list(INT_BOUNDS) + ["decimal"], ["string", "normalizedString", "token", "language", "anyURI"], DURS, DATEY, ["hexBinary", "string"],
+            ["base64Binary", "string", "hexBinary"]]
     fam = rng.choice(fams)
     d1, d2 = rng.choice(fam), rng.choice(fam)
     s = gen_valid(rng, d1) if rng.random() < 0.85 else mutate(rng, d1, gen_valid(rng, d1))
@@ -1536,7 +1558,7 @@ def gen_relit(rng):
 
 
 _EQPY_FAMS = ["numeric", "numeric", "numeric", "string", "boolean", "duration", "dayTimeDuration", "yearMonthDuration",
-              "date", "time", "dateTime", "hexBinary", "float", "token"]
+              "date", "time", "dateTime", "hexBinary", "base64Binary", "float", "token"]
 
 
 def gen_eqpy(rng):
@@ -1641,7 +1663,7 @@ def gen_case(rng, tier, i):
     if r < 0.95:
         return gen_eqpy(rng)
     fam = rng.choice(["numeric", "numeric", "numeric", "string", "boolean", "duration", "dayTimeDuration", "date", "time", "dateTime", "hexBinary",
-                      "float", "token", "normalizedString"])
+                      "base64Binary", "float", "token", "normalizedString"])
     a = _lit_for_eq(rng, fam)
     q = rng.random()
     if q < 0.2:
